@@ -80,3 +80,43 @@ let selog toks =
 let () =
   register "se" se_cmd;
   register "selog" selog
+
+(* client sessions (coq/Sessions/Client.v)
+   sc <tok>*   n (coap_new_client_session)  +:<sid>:<h>  -:<sid>:<h>  F (coap_free_context)  B
+   output: CN:<sid> CF:<sid> B[<sid>:<ref>;...], "!<tok>" on a violated precondition;
+   then " | left=<sids>" *)
+let sc_cmd toks =
+  let buf = Buffer.create 1024 in
+  let add s = if Buffer.length buf > 0 then Buffer.add_char buf ' '; Buffer.add_string buf s in
+  let st = ref sec_init and printed = ref 0 and stop = ref false in
+  let show e = match e with
+    | CNew s -> Printf.sprintf "CN:%d" (int_of_z s)
+    | CFree s -> Printf.sprintf "CF:%d" (int_of_z s) in
+  List.iter (fun tok ->
+    if not !stop then begin
+      if tok = "B" then
+        add ("B[" ^ String.concat ";" (List.map (fun s ->
+               Printf.sprintf "%d:%d" (int_of_z s.cs_id) (int_of_z s.cs_ref)) (!st).ct_tbl) ^ "]")
+      else begin
+        let op = match String.split_on_char ':' tok with
+          | ["n"] -> Some COpNew
+          | ["+"; i; h] -> Some (COpAdd (zi i, zi h))
+          | ["-"; i; h] -> Some (COpRem (zi i, zi h))
+          | ["F"] -> Some COpFreeContext
+          | _ -> None in
+        match op with
+        | None -> add ("!syntax:" ^ tok); stop := true
+        | Some op ->
+            if sec_op_ok !st op then begin
+              st := sec_step !st op;
+              let fresh = drop !printed (!st).ct_log in
+              List.iter (fun e -> add (show e)) fresh;
+              printed := !printed + List.length fresh
+            end else begin add ("!" ^ tok); stop := true end
+      end
+    end) toks;
+  Printf.sprintf "%s | left=%s" (Buffer.contents buf)
+    (match (!st).ct_left with [] -> "-" | l ->
+       String.concat "," (List.map (fun x -> string_of_int (int_of_z x.cs_id)) l))
+
+let () = register "sc" sc_cmd
